@@ -17,6 +17,7 @@ PROPS = {
     "C06": dict(level="exploration", shards=(2, 16), timeout=(300, 1500), assumptions=COMMON),
     "C09": dict(level="exploration", shards=(4, 16), timeout=(600, 3000), assumptions=COMMON + ["loopback TCP delivers bytes in order; the scripted peer's own count of stanzas it sent is the wire truth"]),
     "C10": dict(level="exploration", shards=(4, 16), timeout=(900, 3000), assumptions=COMMON + ["the order in which the scripted peer receives elements is the wire order; quiescence after each step is detected by waiting for the expected number of elements (4 s, 16 s on the confirming re-run) plus a short settle time"], race=dict(pattern="^TestC10_smqueue$", shards=(2, 8), timeout=(900, 3000), scale=0.25, quick=False)),
+    "C11": dict(level="fault_enumeration", shards=(8, 16), timeout=(900, 3000), assumptions=COMMON + ["loopback TCP; the peer's record of the ids it handed out and of the <resume/> elements it received is the truth"]),
     "C12": dict(level="fault_enumeration", shards=(8, 16), timeout=(900, 3000), assumptions=COMMON + ["a half-close on loopback TCP delivers all previously written bytes, then EOF", "stable state is detected by polling runtime.Stack for up to 3 s (12 s on the confirming re-run)"]),
     "C14": dict(level="exploration", shards=(4, 16), timeout=(600, 3000), assumptions=COMMON + ["loopback TCP delivers bytes in order; the scripted peer's transcript is what the client wrote"]),
     "C15": dict(level="exploration", shards=(2, 16), timeout=(300, 1500), assumptions=COMMON, fuzz=[("FuzzC15", 60)]),
@@ -30,6 +31,11 @@ NOT_APPLICABLE = {}
 
 # Texts for MANIFEST.json
 TEXT = {
+    "C11": dict(
+        technique="history/fault-sequence property test (rapid): connection histories with every reply to <resume/>, real Client (Connect + Resume) against the scripted peer; model of the resumable id and counters",
+        level_text="Fault enumeration over the reply alphabet of <resume/> (resumed same id, other id, <failed/> empty / with h / with each XEP-0198 condition, unexpected element, malformed, close) x SM advertised or not, composed into generated histories of 2-5 connections of one Client. A model tracks the id handed out at the last enable and the stanzas received on that session: <resume/> only with that id and count; same id => no bind and identity, counter and held stanzas kept; <failed/> => fresh bind; anything else => stale id dropped, never presented again, old session not continued.",
+        level_note="300 histories quick, 12k thorough. A reconnection on which SM is not advertised only gets the first sentence of the property asserted (the id presented later must be the one from the last enable); the inbound count is not asserted after such a connection.",
+    ),
     "C10": dict(
         technique="history-based model test (rapid): generated Send/SendRaw/ack histories on a real Client; reference model of the held queue driven by the wire truth recorded by the scripted peer; -race pass in the thorough tier",
         level_text="Exploration: generated outbound histories (Send, SendRaw, SendIQ, Send(SMRequest), server <r/>, server <a h=N/> with N below / equal to / above the number received, stale and repeated, concurrent bursts) run against a real stream-managed Client; the peer records every element in arrival order; after every step the client's queue must equal the unacknowledged wire stanzas of the model, and after <a h=N/> exactly the stanzas beyond N must arrive again in order followed by one <r/> (nothing when none is left); <r/>/<a/> are never held.",
